@@ -22,12 +22,12 @@ import (
 )
 
 type StoreOp struct {
-	Op  string `json:"op"`  // SetTok GetTok SetAuth GetAuth ClearAuth Remove tick sweep
-	Sid string `json:"sid"` // s1, s2, ...
-	V   int    `json:"v"`   // value index (SetTok/SetAuth) or seconds (tick)
-	Via int    `json:"via"` // which store instance (Redis: two replicas attached to one server)
-	Fault int  `json:"fault"` // Redis: the k-th Redis command this operation issues fails (0 = none)
-	Thr int    `json:"thr"` // concurrent scenarios: goroutine index
+	Op    string `json:"op"`    // SetTok GetTok SetAuth GetAuth ClearAuth Remove tick sweep
+	Sid   string `json:"sid"`   // s1, s2, ...
+	V     int    `json:"v"`     // value index (SetTok/SetAuth) or seconds (tick)
+	Via   int    `json:"via"`   // which store instance (Redis: two replicas attached to one server)
+	Fault int    `json:"fault"` // Redis: the k-th Redis command this operation issues fails (0 = none)
+	Thr   int    `json:"thr"`   // concurrent scenarios: goroutine index
 }
 
 type StoreScenario struct {
@@ -416,11 +416,12 @@ func runStoreFile(in, out string) (int, error) {
 	return n, sc.Err()
 }
 
-
 // containsKnown: does a structured member (JSON, a joined string) carry a value the predicate knows? The candidates are
 // the quoted strings and the separator-delimited pieces of v.
 func containsKnown(v string, known func(string) bool) bool {
-	for _, piece := range strings.FieldsFunc(v, func(r rune) bool { return r == '"' || r == ',' || r == ';' || r == '|' || r == ' ' || r == '{' || r == '}' || r == '[' || r == ']' }) {
+	for _, piece := range strings.FieldsFunc(v, func(r rune) bool {
+		return r == '"' || r == ',' || r == ';' || r == '|' || r == ' ' || r == '{' || r == '}' || r == '[' || r == ']'
+	}) {
 		if known(piece) {
 			return true
 		}
